@@ -171,7 +171,8 @@ func ClientDo(c *http.Client, r *http.Request) (*http.Response, error) {
 			ReaderDrain(ri.body)
 		}
 		Log(Ev{K: "http.resp", U: []uint64{0, 0, 0}, B: [][]byte{nil}})
-		return nil, errTransport
+		// net/http: "Any returned error will be of type *url.Error"
+		return nil, &url.Error{Op: r.Method, URL: ri.url, Err: errTransport}
 	}
 	if ri.body != nil {
 		ReaderDrain(ri.body) // a request that was answered has been written completely
@@ -308,3 +309,11 @@ func NewVerifierFromKey(key string) (note.Verifier, error) {
 
 //wsym:replace io.WriteString
 func IOWriteString(w io.Writer, s string) (int, error) { return w.Write([]byte(s)) }
+
+// URLErrorTimeout is (*url.Error).Timeout: true iff the wrapped error says so.
+//
+//wsym:replace (*net/url.Error).Timeout
+func URLErrorTimeout(e *url.Error) bool {
+	t, ok := e.Err.(interface{ Timeout() bool })
+	return ok && t.Timeout()
+}
